@@ -338,11 +338,14 @@ class Sub:
 
 
 # (edge-dump config of MC_StoreMapImpl, driver configuration with the same initial state)
-T1_QUICK = [('MC_StoreMapImpl_qw_edges.cfg', 'n=2 keys=1 maxw=1'), ('MC_StoreMapImpl_qa_edges.cfg', 'n=2 keys=1 maxw=1'),
-            ('MC_StoreMapImpl_qf1_edges.cfg', 'n=2 keys=1 maxw=1 pre=1:1'), ('MC_StoreMapImpl_qf2_edges.cfg', 'n=2 keys=1 maxw=1 pre=1:1'),
-            ('MC_StoreMapImpl_qu1_edges.cfg', 'n=3 keys=1 maxw=1 maxu=1 pre=1:2'), ('MC_StoreMapImpl_qu2_edges.cfg', 'n=3 keys=1 maxw=1 maxu=1 pre=1:2')]
-T1_THOROUGH = [('MC_StoreMapImpl_wr_edges.cfg', 'n=2 keys=1 maxw=1'), ('MC_StoreMapImpl_rf_edges.cfg', 'n=2 keys=1 maxw=1 pre=1:1'),
-               ('MC_StoreMapImpl_u_edges.cfg', 'n=3 keys=1 maxw=1 maxu=1 pre=1:2')]
+# the single-process graph with all 16 calls: every action of the I-layer at least once, all its edges are replayed
+T1_QUICK = [('MC_StoreMapImpl_q1p_edges.cfg', 'n=3 keys=1 maxw=1 maxu=1 pre=1:2', None),
+            ('MC_StoreMapImpl_qw_edges.cfg', 'n=2 keys=1 maxw=1', 400), ('MC_StoreMapImpl_qf1_edges.cfg', 'n=2 keys=1 maxw=1 pre=1:1', 400)]
+T1_THOROUGH = [('MC_StoreMapImpl_q1p_edges.cfg', 'n=3 keys=1 maxw=1 maxu=1 pre=1:2', None),
+               ('MC_StoreMapImpl_qa_edges.cfg', 'n=2 keys=1 maxw=1', 20000), ('MC_StoreMapImpl_qf2_edges.cfg', 'n=2 keys=1 maxw=1 pre=1:1', 20000),
+               ('MC_StoreMapImpl_qu1_edges.cfg', 'n=3 keys=1 maxw=1 maxu=1 pre=1:2', 20000),
+               ('MC_StoreMapImpl_wr_edges.cfg', 'n=2 keys=1 maxw=1', 20000), ('MC_StoreMapImpl_rf_edges.cfg', 'n=2 keys=1 maxw=1 pre=1:1', 20000),
+               ('MC_StoreMapImpl_u_edges.cfg', 'n=3 keys=1 maxw=1 maxu=1 pre=1:2', 20000)]
 
 
 def edge_replay(ctx, exe, cfgname, drv_cfg, max_edges):
@@ -388,8 +391,8 @@ def scenario_runs(T, seed):
     runs = []
 
     def X(nf, scripts, cfg, variant='rl', **kw):
-        # quick tier: all schedules are explored under the driver monitor, the first 300 distinct histories of a run go to TLC
-        kw.setdefault('hcap', 100000 if T else 300)
+        # quick tier: all schedules are explored under the driver monitor, the first 200 distinct histories of a run go to TLC
+        kw.setdefault('hcap', 100000 if T else 200)
         runs.append((variant, xcmd(nf, scripts, cfg, **kw), cfg))
     c1 = 'n=3 keys=1'
     c14 = 'n=3 keys=1,4'            # 4 % 3 = 1: the two keys share a name
@@ -443,7 +446,7 @@ def scenario_runs(T, seed):
     X(2, ['u:1', 'f:1+r0:1'], pre + ' strict=1', hcap=0)
     X(2, ['r:1', 'u:1+f:1'], pre + ' strict=1', variant='al', hcap=0)
     # --- T2: random walks, 4 fibers, 4 keys, 8 slices ---
-    nw = 3000 if T else 300
+    nw = 3000 if T else 200
     wc = 'n=8 keys=1,2,3,9 maxw=3 pre=1:2,2:1'
     runs.append(('rl', 'W 4 8 %d %d 0 %s' % (nw, seed + 1, wc), wc))
     wc2 = 'n=4 keys=1,5 maxw=2 pre=1:2'
@@ -456,29 +459,30 @@ def run(ctx):
     T = ctx.thorough
     exes = {'rl': build(ctx, False), 'al': build(ctx, True)}
     ctx.log('drivers built:', exes['rl'], exes['al'])
-    pool = concurrent.futures.ThreadPoolExecutor(max_workers=vlib.NCPU)
+    pool = concurrent.futures.ThreadPoolExecutor(max_workers=vlib.NCPU)        # explorers
+    bg = concurrent.futures.ThreadPoolExecutor(max_workers=4)                  # model checks and edge dumps, side by side
 
     # 1. design step: the P-layer model-checked standalone (the guards maintain the invariants of the statement) and the
     #    I-layer with its ghost invariants (spurious lock failures on)
     mc = os.path.join(SPEC, 'MC_StoreIndex.tla')
     mi = os.path.join(SPEC, 'MC_StoreMapImpl.tla')
-    mcs = [(mc, 'MC_StoreIndex_q.cfg'), (mc, 'MC_StoreIndex_qu.cfg'), (mi, 'MC_StoreMapImpl_2c.cfg'), (mi, 'MC_StoreMapImpl_u.cfg')]
+    mcs = [(mc, 'MC_StoreIndex_q.cfg'), (mc, 'MC_StoreIndex_qu.cfg'), (mi, 'MC_StoreMapImpl_2c.cfg')]
     if T:
-        mcs += [(mc, 'MC_StoreIndex.cfg'), (mi, 'MC_StoreMapImpl_2.cfg')]
+        mcs += [(mc, 'MC_StoreIndex.cfg'), (mi, 'MC_StoreMapImpl_2.cfg'), (mi, 'MC_StoreMapImpl_u.cfg')]
     if ctx.replay:
         mcs = []
-    mc_f = [pool.submit(vlib.tlc_must_pass, ctx, m, os.path.join(SPEC, c), workers=2, heap='6g', timeout=2400) for m, c in mcs]
+    mc_f = [bg.submit(vlib.tlc_must_pass, ctx, m, os.path.join(SPEC, c), workers=2, heap='6g', timeout=2400) for m, c in mcs]
 
     # 1b. T1: edges of the I-graphs on the real code (lock operations as single steps); quick: a seeded sample of each graph
-    def t1(cfgname, drv_cfg):
+    def t1(cfgname, drv_cfg, max_edges):
         sub = Sub(ctx)
         try:
-            edge_replay(sub, exes['al'], cfgname, drv_cfg, 20000 if T else 500)
+            edge_replay(sub, exes['al'], cfgname, drv_cfg, max_edges)
         except MachineryError as e:
             # an implementation that left the I-layer far enough to break the replay itself: drift, the P-layer decides below
             sub.drift.append('edge replay of %s could not be completed: %s' % (cfgname, str(e)[:300]))
         return sub
-    t1_f = [pool.submit(t1, c, d) for c, d in (T1_QUICK + (T1_THOROUGH if T else []))] if not ctx.replay else []
+    t1_f = [bg.submit(t1, c, d, m) for c, d, m in (T1_THOROUGH if T else T1_QUICK)] if not ctx.replay else []
 
     # 2. exploration of the real code
     runs = scenario_runs(T, ctx.seed)
@@ -579,7 +583,7 @@ def run(ctx):
         'TLC BFS of StoreIndex (P: 2 processes x 2 anchors, every result each call may produce; core operations, and the update '
         'cycle from a stored entry%s) and of StoreMapImpl (I: one action per shared access of all 16 calls, 2 processes x 2-3 calls, '
         'spurious lock failures, ghost invariants); edges of the I-graphs replayed on the real code with lock operations as single '
-        'steps (state and result equality; quick: seeded sample of 500 per graph); bounded exhaustive schedule exploration of the real Ipc::StoreMap over the real '
+        'steps (state and result equality; quick: the complete single-process graph of all 16 calls and seeded samples of 400 edges of two 2-process graphs; thorough: seven graphs, up to 20000 edges each); bounded exhaustive schedule exploration of the real Ipc::StoreMap over the real '
         'Ipc::ReadWriteLock at atomic granularity (2-3 fibers running scripts of public calls: write, append, abort, read, '
         'read-and-free-idle, freeEntry, freeEntryByKey, purgeOne, update, abort update; name collisions; entries stored before) '
         'and with lock operations as single steps (3 fibers, every protocol-respecting call sequence of bounded length); seeded '
